@@ -525,6 +525,59 @@ var ops = []op{
 		t.Body = &c
 		return fmt.Sprintf("cut binder renamed to live name %s, which the call also names as its provider, in %s", z, s.where)
 	}},
+	{"binder-is-self", "substructural", func(p *Program, r *rand.Rand, ss []site) string {
+		// a binder spelt 'self' (the grammar has self wherever a name can stand): the channel it
+		// should bind is lost; the old uses of the binder now speak about the provider
+		s := pickSite(r, ss, func(s site) bool {
+			switch s.t.Op {
+			case "recv", "split", "shift", "new", "case":
+				return true
+			}
+			return false
+		})
+		if s == nil {
+			return ""
+		}
+		t := s.t
+		forget := func(body *Term, name string) {
+			// with the binder gone, its consumer (if it is a plain wait / drop) goes too, half
+			// of the time: the bound channel is then silently discarded
+			if r.Intn(2) == 0 {
+				return
+			}
+			var hit *Term
+			Walk(body, func(x *Term) {
+				if hit == nil && (x.Op == "wait" || x.Op == "drop") && Base(x.X) == name {
+					hit = x
+				}
+			})
+			if hit != nil {
+				replace(hit, hit.Cont)
+			}
+		}
+		switch t.Op {
+		case "recv", "split":
+			if r.Intn(2) == 0 {
+				forget(t.Cont, Base(t.Y))
+				t.Y = "self"
+			} else {
+				forget(t.Cont, Base(t.Z))
+				t.Z = "self"
+			}
+		case "shift", "new":
+			if t.Op == "new" && t.Ann != nil {
+				return ""
+			}
+			forget(t.Cont, Base(t.Y))
+			t.Y = "self"
+		case "case":
+			t.Brs = append([]CaseBr(nil), t.Brs...)
+			i := r.Intn(len(t.Brs))
+			forget(t.Brs[i].Body, Base(t.Brs[i].Var))
+			t.Brs[i].Var = "self"
+		}
+		return fmt.Sprintf("a binder of %s is spelt self in %s", t.Op, s.where)
+	}},
 	{"multi-name", "substructural", func(p *Program, r *rand.Rand, ss []site) string {
 		var c []*Proc
 		for _, pr := range p.Procs {
